@@ -95,6 +95,25 @@ func repCases() []repCase {
 	add("LogSoftmax", []hx.Attr{hx.AInt("axis", 0)}, 1, "axis-0", f(1, 2, 3))
 	add("ReduceMax", nil, 1, "no-attributes", f(1, 2, 3))
 	add("ReduceMin", []hx.Attr{hx.AInts("axes", -1)}, 1, "keepdims-default", f(1, 2, 3))
+	// configurations in which the result has the operand's values (an implementation may be tempted to hand the operand,
+	// or a header sharing its storage, back)
+	add("ReduceMax", []hx.Attr{hx.AInts("axes", 0, 2), hx.AInt("keepdims", 1)}, 1, "reduced-axes-of-extent-1", f(1, 1, 3, 1))
+	add("ReduceMin", []hx.Attr{hx.AInts("axes", 1), hx.AInt("keepdims", 0)}, 1, "reduced-axis-of-extent-1", f(1, 2, 1, 3))
+	add("Flatten", []hx.Attr{hx.AInt("axis", 1)}, 1, "already-2D", f(1, 2, 3))
+	add("Gather", []hx.Attr{hx.AInt("axis", 0)}, 1, "identity-indices", f(1, 3, 2), ref.I64Vec(0, 1, 2))
+	add("Unsqueeze", nil, 1, "leading-axis", f(1, 2, 3), ref.I64Vec(0))
+	add("Squeeze", nil, 1, "leading-axis", f(1, 1, 2, 3), ref.I64Vec(0))
+	add("Slice", nil, 1, "whole-default-axes-steps", f(1, 3, 4), ref.I64Vec(0, 0), ref.I64Vec(3, 4), nil, nil)
+	add("Mul", nil, 1, "by-ones", f(1, 2, 3), ref.FromF(ref.F32, []int{2, 3}, 1, 1, 1, 1, 1, 1))
+	add("Add", nil, 1, "zeros", f(1, 2, 3), ref.FromF(ref.F32, []int{3}, 0, 0, 0))
+	add("Relu", nil, 1, "all-positive", ref.FromF(ref.F32, []int{2, 2}, 1, 2, 3, 4))
+	add("Abs", nil, 1, "all-positive", ref.FromF(ref.F32, []int{2, 2}, 1, 2, 3, 4))
+	add("Softmax", []hx.Attr{hx.AInt("axis", 1)}, 1, "axis-of-extent-1", f(1, 2, 1))
+	add("MatMul", nil, 1, "identity-matrix", f(1, 2, 2), ref.FromF(ref.F32, []int{2, 2}, 1, 0, 0, 1))
+	add("Gemm", nil, 1, "identity-matrix", f(1, 2, 2), ref.FromF(ref.F32, []int{2, 2}, 1, 0, 0, 1))
+	add("Conv", nil, 1, "1x1-unit-kernel", f(1, 1, 1, 2, 2), ref.FromF(ref.F32, []int{1, 1, 1, 1}, 1))
+	add("Scaler", []hx.Attr{hx.AFloats("offset", 0), hx.AFloats("scale", 1)}, 1, "identity", f(1, 2, 3))
+	add("PRelu", nil, 1, "unit-slope", f(1, 2, 3), ref.FromF(ref.F32, []int{3}, 1, 1, 1))
 	add("Reshape", nil, 1, "", f(1, 2, 3), ref.I64Vec(3, -1))
 	add("Flatten", []hx.Attr{hx.AInt("axis", 1)}, 1, "", f(1, 2, 3, 2))
 	add("Squeeze", nil, 1, "", f(1, 2, 1, 3), ref.I64Vec(1))
